@@ -162,3 +162,91 @@ def _dict_patch(arg=_MISSING, **kwargs):
 
 if _ch_dict is not None:
     _core._PATCH_REGISTRATIONS[dict] = _dict_patch
+
+# (g) copy.copy / copy.deepcopy / dict.copy / set() / frozenset() / list.copy on *fully concrete*
+# arguments run natively. CrossHair otherwise replaces their results by symbolic containers
+# (ShellMutableMap/ShellMutableSet), which costs hundreds of solver queries per path, makes set
+# membership equality-based (BaseMutation hashes by identity) and has shown wrong length
+# bookkeeping. "Fully concrete" is established by a bounded walk; anything symbolic, too deep or
+# too large falls back to CrossHair's own implementation.
+import copy as _copy
+
+
+def _all_concrete(obj, budget, depth=0):
+    """budget: one-element list with the number of nodes still allowed."""
+    budget[0] -= 1
+    if budget[0] < 0 or depth > 8:
+        return False
+    if isinstance(obj, CrossHairValue):
+        return False
+    if obj is None or isinstance(obj, (str, int, float, bool, bytes, type)):
+        return True
+    if isinstance(obj, dict):
+        for k, v in obj.items():
+            if not _all_concrete(k, budget, depth + 1) or not _all_concrete(v, budget, depth + 1):
+                return False
+        return True
+    if isinstance(obj, (list, tuple, set, frozenset)):
+        for i in obj:
+            if not _all_concrete(i, budget, depth + 1):
+                return False
+        return True
+    d = getattr(obj, '__dict__', None)
+    if isinstance(d, dict):
+        for v in d.values():
+            if not _all_concrete(v, budget, depth + 1):
+                return False
+        return True
+    return callable(obj) or True
+
+
+def _native_if_concrete(orig_patch, native):
+    def patched(*a, **kw):
+        with NoTracing():
+            ok = all(_all_concrete(x, [3000]) for x in a) and not kw
+            if ok:
+                try:
+                    return native(*a)
+                except Exception:
+                    pass
+        return orig_patch(*a, **kw)
+    return patched
+
+
+def _iter_concrete(native):
+    def wrap(*a):
+        # materialise generators once so that the fallback still sees the items
+        return native(*a)
+    return wrap
+
+
+for _target, _native in ((_copy.copy, _copy.copy), (_copy.deepcopy, _copy.deepcopy),
+                         (dict.copy, dict.copy), (list.copy, list.copy), (set.copy, set.copy)):
+    _p = _core._PATCH_REGISTRATIONS.get(_target)
+    if _p is not None:
+        _core._PATCH_REGISTRATIONS[_target] = _native_if_concrete(_p, _native)
+
+_ch_set = _core._PATCH_REGISTRATIONS.get(set)
+_ch_frozenset = _core._PATCH_REGISTRATIONS.get(frozenset)
+
+
+def _mk_setlike(orig_patch, native):
+    def patched(*a):
+        if len(a) == 1:
+            with NoTracing():
+                arg = a[0]
+                if type(arg) in (list, tuple, set, frozenset, dict) and _all_concrete(arg, [3000]):
+                    try:
+                        return native(arg)
+                    except Exception:
+                        pass
+        elif not a:
+            return native()
+        return orig_patch(*a)
+    return patched
+
+
+if _ch_set is not None:
+    _core._PATCH_REGISTRATIONS[set] = _mk_setlike(_ch_set, set)
+if _ch_frozenset is not None:
+    _core._PATCH_REGISTRATIONS[frozenset] = _mk_setlike(_ch_frozenset, frozenset)
